@@ -1376,6 +1376,7 @@ func runWSSKeep(c *Ctx, r *Reporter) {
 		r.Undecided("(*parser).parseBinaryExpr not found")
 	}
 	// (b) writeWSS
+	inlineWSS := false
 	if fd := FindFunc(pkg, "(*formatting).writeWSS"); fd != nil {
 		sf := p.SSAFunc(fd.Obj)
 		good := false
@@ -1414,11 +1415,30 @@ func runWSSKeep(c *Ctx, r *Reporter) {
 		}
 		r.Check(good && nWrites == 1, fd.QName()+"#space-only-if-unrecorded", p.Rel(fd.Decl.Pos()), "the space is written only for nodes that were not recorded", "writeWSS writes its space on a path where the node was recorded as white-space sensitive (or unconditionally)")
 	} else {
-		r.Undecided("(*formatting).writeWSS not found")
+		inlineWSS = true // no helper: the guarded space must be found in the formatter's case itself, see (c)
+	}
+	if inlineWSS {
+		r.Ok("pkg/parser.(*formatting).writeWSS#space-only-if-unrecorded", "pkg/parser/format.go", "no helper of that name: the guarded space is checked where it is written, in the formatter's case for binary expressions")
+		r.Note("no writeWSS helper: the space around a binary operator is looked for in the formatter's case, guarded by the look-up in the white-space table")
 	}
 	// (c) the formatter's case: writeWSS, operator, writeWSS — and no literal space
 	if fd := FindFunc(pkg, "(*formatting).format"); fd != nil {
 		tss := typeSwitches(pkg.TypesInfo, fd.Decl.Body, func(ast.Expr) bool { return true })
+		// the dispatch may continue in a function format hands the node on to (formatExpr)
+		ast.Inspect(fd.Decl.Body, func(n ast.Node) bool {
+			if call, ok := n.(*ast.CallExpr); ok {
+				if cf := calleeFunc(pkg.TypesInfo, call); cf != nil && cf.Pkg() == pkg.Types && cf != fd.Obj {
+					for _, d2 := range Funcs(pkg) {
+						if d2.Obj == cf && d2.Decl.Body != nil && len(call.Args) == 1 {
+							if t := pkg.TypesInfo.TypeOf(call.Args[0]); t != nil && types.IsInterface(t) {
+								tss = append(tss, typeSwitches(pkg.TypesInfo, d2.Decl.Body, func(ast.Expr) bool { return true })...)
+							}
+						}
+					}
+				}
+			}
+			return true
+		})
 		found := false
 		for _, ts := range tss {
 			cases, _ := typeSwitchCases(pkg.TypesInfo, ts)
@@ -1428,6 +1448,8 @@ func runWSSKeep(c *Ctx, r *Reporter) {
 				}
 				found = true
 				var seq []string
+				sawInline := false
+				_ = sawInline
 				body := cc.Body
 				// the case may hand the node to a helper of its own: `case *BinaryExpression: f.formatBinaryExpression(n)`
 				if len(body) == 1 {
@@ -1443,7 +1465,49 @@ func runWSSKeep(c *Ctx, r *Reporter) {
 						}
 					}
 				}
+				// `tight := f.wss[n] … if !tight { f.write(" ") }`: writeWSS written out in place
+				wssLocals := map[types.Object]bool{}
+				isWSSLookup := func(e ast.Expr) bool {
+					e = ast.Unparen(e)
+					if id, ok := e.(*ast.Ident); ok {
+						return wssLocals[pkg.TypesInfo.ObjectOf(id)]
+					}
+					ix, ok := e.(*ast.IndexExpr)
+					if !ok {
+						return false
+					}
+					sel, ok := ast.Unparen(ix.X).(*ast.SelectorExpr)
+					if !ok || sel.Sel.Name != "wss" {
+						return false
+					}
+					id, ok := ast.Unparen(ix.Index).(*ast.Ident)
+					return ok && pkg.TypesInfo.ObjectOf(id) == pkg.TypesInfo.Implicits[cc]
+				}
+				if len(body) == len(cc.Body) {
+					// (the case's own variable is the implicit object of the clause; in a helper it is the parameter)
+				}
 				for _, st := range body {
+					if as, ok := st.(*ast.AssignStmt); ok && len(as.Lhs) == 1 && len(as.Rhs) == 1 && as.Tok == token.DEFINE && isWSSLookup(as.Rhs[0]) {
+						if id, ok := as.Lhs[0].(*ast.Ident); ok {
+							wssLocals[pkg.TypesInfo.ObjectOf(id)] = true
+							continue
+						}
+					}
+					if ifs, ok := st.(*ast.IfStmt); ok && ifs.Else == nil && ifs.Init == nil && len(ifs.Body.List) == 1 {
+						if ue, ok := ast.Unparen(ifs.Cond).(*ast.UnaryExpr); ok && ue.Op == token.NOT && isWSSLookup(ue.X) {
+							if es, ok := ifs.Body.List[0].(*ast.ExprStmt); ok {
+								if call, ok := es.X.(*ast.CallExpr); ok && len(call.Args) == 1 {
+									if cf := calleeFunc(pkg.TypesInfo, call); cf != nil && cf.Name() == "write" {
+										if sv, ok := constString(pkg.TypesInfo, call.Args[0]); ok && sv == " " {
+											seq = append(seq, "wss")
+											sawInline = true
+											continue
+										}
+									}
+								}
+							}
+						}
+					}
 					ast.Inspect(st, func(n ast.Node) bool {
 						call, ok := n.(*ast.CallExpr)
 						if !ok {
